@@ -124,14 +124,14 @@ def run(ck, tier):
                        'Go map iteration order cannot be forced: each graph is run several times to vary the DFS entry '
                        'point (sound, not complete); the model covers every order']
     if tier == 'thorough':
-        rec = dict(recs[next(i for i, r in enumerate(recs) if r['cycles'])])
+        rec = dict(recs[next(i for i, r in enumerate(recs) if r['cycles'] and len(r['needs']) >= 2)])
         rec['cycles'] = [{'at': rec['cycles'][0]['at'], 'path': rec['cycles'][0]['path'][:-1] + [rec['cycles'][0]['path'][0] % len(rec['needs']) + 1]}]
         t2 = vplib.run_tlc('NeedsTrace', 'NeedsTrace.cfg', workers=1, files={'trace.ndjson': json.dumps(rec) + '\n'},
                            name='selftest', timeout=600)
         ok = parse_mism(t2.out) == [1]
         ck.cov['binding_selftest'] = 'rejected' if ok else 'NOT rejected'
         if not ok:
-            raise Inconclusive('binding self-test failed')
+            raise Inconclusive('binding self-test failed: corrupted record %s judged %r; TLC said: %s' % (json.dumps(rec), parse_mism(t2.out), t2.out[-600:]))
 
 
 def replay(path):
